@@ -80,22 +80,40 @@ impl SeqCtx {
     }
 }
 
+type SharedSeq = std::sync::Arc<Mutex<SeqCtx>>;
+
 thread_local! {
-    static SEQ: RefCell<Option<SeqCtx>> = const { RefCell::new(None) };
+    /// the sequential context of this thread; engine threads spawned from it (search, timer) adopt the same one
+    static SEQ: RefCell<Option<SharedSeq>> = const { RefCell::new(None) };
     static SCHED_ME: Cell<Option<usize>> = const { Cell::new(None) };
 }
 
+/// hand-over slot parent -> freshly spawned child (at most one unregistered child exists at any time, see will_spawn)
+static HANDOFF: Mutex<Option<SharedSeq>> = Mutex::new(None);
+static HANDOFF_CV: Condvar = Condvar::new();
+
+fn my_seq() -> Option<SharedSeq> {
+    SEQ.with(|s| s.borrow().clone())
+}
+fn seq_lock(a: &SharedSeq) -> MutexGuard<'_, SeqCtx> {
+    a.lock().unwrap_or_else(|e| e.into_inner())
+}
+
 pub fn seq_begin(ctx: SeqCtx) {
-    SEQ.with(|s| *s.borrow_mut() = Some(ctx));
+    SEQ.with(|s| *s.borrow_mut() = Some(std::sync::Arc::new(Mutex::new(ctx))));
 }
 pub fn seq_end() -> SeqCtx {
-    SEQ.with(|s| s.borrow_mut().take().expect("seq_end without seq_begin"))
+    let a = SEQ.with(|s| s.borrow_mut().take().expect("seq_end without seq_begin"));
+    let mut g = seq_lock(&a);
+    std::mem::replace(&mut *g, SeqCtx::new())
 }
 pub fn seq_active() -> bool {
     SEQ.with(|s| s.borrow().is_some())
 }
 pub fn with_seq<R>(f: impl FnOnce(&mut SeqCtx) -> R) -> R {
-    SEQ.with(|s| f(s.borrow_mut().as_mut().expect("no seq context")))
+    let a = my_seq().expect("no seq context");
+    let mut g = seq_lock(&a);
+    f(&mut g)
 }
 /// run `f` with a fresh sequential context and return (result, context)
 pub fn in_seq<R>(ctx: SeqCtx, f: impl FnOnce() -> R) -> (R, SeqCtx) {
@@ -107,22 +125,16 @@ pub fn in_seq<R>(ctx: SeqCtx, f: impl FnOnce() -> R) -> (R, SeqCtx) {
 // ---------------------------------------------------------------- output capture (println!/print! shadows)
 
 pub fn emit(part: bool, text: String) {
-    let handled = SEQ.with(|s| {
-        if let Some(c) = s.borrow_mut().as_mut() {
-            if part {
-                c.partial.push_str(&text);
-            } else {
-                let mut l = std::mem::take(&mut c.partial);
-                l.push_str(&text);
-                // a single println! may contain embedded newlines (Display for Game)
-                c.transcript.push(l);
-            }
-            true
+    if let Some(a) = my_seq() {
+        let mut c = seq_lock(&a);
+        if part {
+            c.partial.push_str(&text);
         } else {
-            false
+            let mut l = std::mem::take(&mut c.partial);
+            l.push_str(&text);
+            // a single println! may contain embedded newlines (Display for Game)
+            c.transcript.push(l);
         }
-    });
-    if handled {
         return;
     }
     if let Some(me) = SCHED_ME.with(|m| m.get()) {
@@ -237,6 +249,16 @@ pub fn point_join<T>(name: &'static str, h: &JoinHandle<T>) {
 }
 
 pub fn will_spawn() {
+    if let Some(a) = my_seq() {
+        // sequential mode: the child adopts this thread's context. One slot, filled only when empty, so the
+        // child that empties it is necessarily ours (no other unregistered child can exist meanwhile).
+        let mut h = HANDOFF.lock().unwrap_or_else(|e| e.into_inner());
+        while h.is_some() {
+            h = HANDOFF_CV.wait(h).unwrap_or_else(|e| e.into_inner());
+        }
+        *h = Some(a);
+        return;
+    }
     if SCHED_ME.with(|m| m.get()).is_none() {
         return;
     }
@@ -259,15 +281,8 @@ pub fn will_spawn() {
 }
 
 pub fn timer_override(t: Duration) -> Duration {
-    let seq = SEQ.with(|s| {
-        if let Some(c) = s.borrow_mut().as_mut() {
-            c.budgets.push(t.as_millis());
-            true
-        } else {
-            false
-        }
-    });
-    if seq {
+    if let Some(a) = my_seq() {
+        seq_lock(&a).budgets.push(t.as_millis());
         return Duration::ZERO;
     }
     if SCHED_ME.with(|m| m.get()).is_some() {
@@ -282,10 +297,21 @@ pub fn timer_override(t: Duration) -> Duration {
 
 pub struct ThreadScope {
     registered: bool,
+    adopted_seq: bool,
 }
 
 impl ThreadScope {
     pub fn enter(name: &'static str) -> ThreadScope {
+        // sequential mode: adopt the parent's context if one is waiting in the hand-over slot
+        {
+            let mut h = HANDOFF.lock().unwrap_or_else(|e| e.into_inner());
+            if let Some(a) = h.take() {
+                SEQ.with(|s| *s.borrow_mut() = Some(a));
+                drop(h);
+                HANDOFF_CV.notify_all();
+                return ThreadScope { registered: false, adopted_seq: true };
+            }
+        }
         let mut registered = false;
         {
             let mut g = lock();
@@ -304,12 +330,16 @@ impl ThreadScope {
         if registered {
             park(Park::Start, name);
         }
-        ThreadScope { registered }
+        ThreadScope { registered, adopted_seq: false }
     }
 }
 
 impl Drop for ThreadScope {
     fn drop(&mut self) {
+        if self.adopted_seq {
+            SEQ.with(|s| *s.borrow_mut() = None);
+            return;
+        }
         if !self.registered {
             return;
         }
@@ -334,8 +364,10 @@ impl Drop for ThreadScope {
 }
 
 pub fn on_node(flag: &AtomicBool, table: &mut crate::search::TranspositionTable, rem: u8, real: u8) {
-    let seq = SEQ.with(|s| {
-        if let Some(c) = s.borrow_mut().as_mut() {
+    let seq = {
+        if let Some(a) = my_seq() {
+            let mut guard = seq_lock(&a);
+            let c = &mut *guard;
             let ptr = flag as *const AtomicBool as usize;
             if ptr != c.last_flag {
                 c.last_flag = ptr;
@@ -385,7 +417,7 @@ pub fn on_node(flag: &AtomicBool, table: &mut crate::search::TranspositionTable,
         } else {
             false
         }
-    });
+    };
     if seq {
         return;
     }
@@ -418,9 +450,8 @@ impl In {
 impl Iterator for Lines {
     type Item = std::io::Result<String>;
     fn next(&mut self) -> Option<Self::Item> {
-        let seq = SEQ.with(|s| s.borrow_mut().as_mut().map(|c| c.input.pop_front()));
-        if let Some(line) = seq {
-            return line.map(Ok);
+        if let Some(a) = my_seq() {
+            return seq_lock(&a).input.pop_front().map(Ok);
         }
         if SCHED_ME.with(|m| m.get()).is_some() {
             park(Park::Input, "stdin");
